@@ -338,7 +338,7 @@ def c14(ctx):
 
 
 def c12_composer(ctx):
-    only = "input-mutated,error-with-state,panic"
+    only = "input-mutated,error-with-state,panic,failure-swallowed"
     for ov, label in composer_runs(ctx)[:2]:
         if ctx.tier == "thorough" and "KIds" in ov:
             ov = dict(ov)
@@ -407,6 +407,12 @@ def c11(ctx):
     pairing = q("benign") if ctx.tier == "quick" else q("all")
     _, summ = ctx.tlc_pipe("MC_JsonPatchGuard.tla", "MC_JsonPatchGuard.cfg", ["guard-replay"],
                            overrides={"Pairing": pairing}, label="RFC 6902 lists, pairing " + pairing, timeout=3000)
+    # the model's may-alter classification is bound to the real library on the lists that validation refuses; a
+    # disagreement there is the model's problem (exit 2) - unless lists that validation LETS THROUGH alter keys or
+    # services as well: then the code changed, and those are reported
+    verdicts = [m for m in ctx.violations if m.get("kind") != "model-binding"]
+    if verdicts:
+        ctx.violations = verdicts
     if any(m.get("kind") == "model-binding" for m in ctx.violations):
         raise Infra("the may-alter classification of JsonPatchGuard.tla disagrees with the real library on a list "
                     "that validation refuses: the model, not the code, is wrong: %s" %
@@ -768,7 +774,7 @@ def c19(ctx):
                 "IsValidOriginalDocument / IsValidPayload) x valid template (requests of every type with the signed data "
                 "as a JSON sub-tree that is re-signed after corruption, long-form DIDs with the initial state as a "
                 "sub-tree, JWS, JWK, documents, patches of every action incl. RFC 6902 on arrays and remove lists naming "
-                "more ids than exist; chains of <= MaxChain copy / move operations among 6 locations of one document) x node position 0..MaxPos of the template's JSON tree x 20 replacements (null, "
+                "more ids than exist; chains of <= MaxChain copy / move operations among 6 locations of one document) x node position 0..MaxPos of the template's JSON tree x 24 replacements (null, "
                 "true, 0, -1, 1e400, empty / 60 kB string, [], {}, 5000-deep nesting, member removed / duplicated, other "
                 "operation type, numeric string, array of itself, negative / huge array index in a pointer, pointer into "
                 "its own source, odd keys, invalid UTF-8). Every plan is executed in a worker subprocess under recover "
